@@ -1348,9 +1348,9 @@ pub fn round_c07_race(seed: u64) -> Value {
     })
 }
 
-/// C05 under concurrency: the newest frames of a topic are appended and removed (explicitly, and by head:N
-/// eviction) while other threads look up the head. A base frame of the topic is never removed, so the head is
-/// never "nothing", and whatever is returned has exactly that topic and context.
+/// C05 under concurrency: the newest frames of a topic are appended and removed while other threads look up the
+/// head. A base frame of the topic is never removed, so the head is never "nothing", and whatever is returned has
+/// exactly that topic and context.
 pub fn round_c05_race(seed: u64) -> Value {
     let mut rng = Rng::new(seed);
     let (store, dir) = new_store("e2c05");
@@ -1396,10 +1396,9 @@ pub fn round_c05_race(seed: u64) -> Value {
     let mut removed = 0u64;
     for i in 0..rounds {
         let t = topics[i % 3];
-        if i % 4 == 3 {
-            // eviction by the collector instead of an explicit remove
-            let _ = store.append(Frame::builder(t, ctx).ttl(TTL::Head(2)).meta(json!({"i": i})).build());
-        } else if let Ok(f) = store.append(Frame::builder(t, ctx).meta(json!({"i": i})).build()) {
+        // (explicit removals only: a head:N eviction would be allowed to take the base frame away, and a lookup that
+        // races several evictions may then legitimately find every frame of its snapshot gone)
+        if let Ok(f) = store.append(Frame::builder(t, ctx).meta(json!({"i": i})).build()) {
             if store.remove(&f.id).is_ok() {
                 removed += 1;
             }
